@@ -1,0 +1,18 @@
+//go:build verif
+
+package db
+
+import (
+	"github.com/glebziz/fs_db/internal/di"
+)
+
+// VerifContainer gives the verification harness access to the DI container of an
+// inline database returned by New / inline.Open (nil for anything else).
+func VerifContainer(x any) *di.Container {
+	d, ok := x.(*db)
+	if !ok {
+		return nil
+	}
+
+	return d.container
+}
